@@ -142,6 +142,9 @@ func Execute(tt *testing.T, p *Prop, tape *Tape, verbose bool) *Run {
 		}
 		r.Steps = s.Step
 		r.Switches = s.Switches
+		if s.SelectReorders > 0 {
+			r.Fault("select-case-order")
+		}
 		r.Truncated = r.Truncated || s.Truncated
 		r.Leaked = s.Leftover()
 		r.Hash = s.Hash() ^ r.Sig
